@@ -274,7 +274,7 @@ pub fn run(tier: Tier) -> i32 {
     // very long texts (tens of thousands of tokens): isolated pairs of small numbers that only count together, with
     // periods of 6, 7 and 11 tokens, so that any piecewise processing cuts through some pair
     {
-        let sizes: &[usize] = if tier == Tier::Quick { &[3_000, 20_000, 70_000] } else { &[3_000, 20_000, 70_000, 140_000] };
+        let sizes: &[usize] = if tier == Tier::Quick { &[3_000, 20_000, 70_000] } else { &[3_000, 20_000, 80_000] };
         let mut shards: Vec<(L, usize, usize)> = vec![];
         for l in langs::ALL {
             for u in 0..4usize {
@@ -304,7 +304,7 @@ pub fn run(tier: Tier) -> i32 {
     let cov = json!({
         "exhaustive": true,
         "rule": "every concatenation (no implicit spaces) of <= k atoms: number words, ordinary/linking/ambiguous words, ASCII and Unicode whitespace, punctuation, multi-byte and combining characters, emoji, CJK, non-ASCII digits; thresholds 0 and 10; four clauses (tokens concatenate back; output = independent splice of reported occurrences; no number atom => identical; stream replacement hands each token exactly once, in order — on the tokens of the text and on word-only streams of <= k class words, where occurrences can be adjacent); non-trivial = texts with at least one occurrence",
-        "bounds": {"very_long_texts": "4 repeating units (isolated pairs of small numbers, periods 6 / 7 / 11 tokens, with and without punctuation) repeated to 3 000, 20 000 and (quick: units 1 and 3 only) 70 000 tokens (thorough: all units, also 140 000): past token positions 2^16 and 2^17", "depth_all_atoms": k, "depth_core_atoms": kcore, "long_texts": {"pattern_depth": 2, "repetitions_up_to": rmax}, "three_atom_patterns_and_word_stream_patterns_repeated_up_to": rmax3},
+        "bounds": {"very_long_texts": "4 repeating units (isolated pairs of small numbers, periods 6 / 7 / 11 tokens, with and without punctuation) repeated to 3 000, 20 000 and (quick: units 1 and 3 only) 70 000 tokens (thorough: all units to 80 000): past token positions 2^16 and 2^17", "depth_all_atoms": k, "depth_core_atoms": kcore, "long_texts": {"pattern_depth": 2, "repetitions_up_to": rmax}, "three_atom_patterns_and_word_stream_patterns_repeated_up_to": rmax3},
         "alphabets": sizes,
     });
     ctx.finish(total, cov, vec!["the segmentation itself is not prescribed, only that tokens concatenate back to the text".into()])
